@@ -8,6 +8,7 @@ evaluated after every operation of every history.
 '''
 import itertools
 
+SUPPORTS_REPLAY = True
 SHARDS = {'quick': 16, 'thorough': 64}
 TIMEOUT = {'quick': 900, 'thorough': 5400}
 MUST_HIT = ['OrderedSetInv', 'ListModel', 'icontract.OrderedSetInv']
